@@ -417,20 +417,49 @@ def run_case(case, rep, env):
         sf.hbar = 2
 
 
+TDM_SLOTS = [("Sgate", 2, 1), ("Sgate", 2, 0), ("Rgate", 1, 0), ("BSgate", 2, 0), ("BSgate", 2, 1), ("Dgate", 2, 1), ("Dgate", 2, 0),
+             ("Zgate", 1, 0), ("MZgate", 2, 0), ("MZgate", 2, 1)]
+TDM_TWO = ("BSgate", "MZgate")
+
+
 def tdm_cases(env, rep, rng, ncases):
-    sf, ops = env["sf"], env["ops"]
+    """TDM programs with 1-13 per-time-bin parameter arrays (two-digit array numbers: p10 sorts before p2 as text), one or two
+    loops, every array used by some gate or by the measurement, arrays with repeated / equal contents (a permutation of
+    equal arrays is invisible, a permutation of distinct ones is not)."""
+    off = int(rng.integers(8))
     for i in range(ncases):
         nbins = int(rng.integers(2, 6))
-        arrs = [[float(x) for x in rng.uniform(-1, 1, nbins)] for _ in range(3)]
+        k = int([3, 11, 1, 12, 2, 13, 5, 10][(i + off) % 8])
+        arrs = [[float(x) for x in np.round(rng.uniform(-1, 1, nbins), int(rng.integers(2, 12)))] for _ in range(k)]
+        N = [[2], [1, 2], [3], [1]][int(rng.integers(4))] if i % 3 else [2]
+        conc = sum(N)
         fmt = ["blackbird", "xir"][i % 2]
-        case = {"tdm": True, "arrays": arrs, "format": fmt}
-        rep.case(["tdm", rnd(arrs, 5), fmt], True)
-        prog = sf.TDMProgram(N=2)
+        plan_ = []
+        for j in range(k):
+            nm, npar, slot = TDM_SLOTS[int(rng.integers(len(TDM_SLOTS)))]
+            if nm in TDM_TWO and conc < 2:
+                nm, npar, slot = "Rgate", 1, 0
+            modes = [int(x) for x in rng.choice(conc, 2 if nm in TDM_TWO else 1, replace=False)]
+            plan_.append([nm, npar, slot, modes, float(np.round(rng.uniform(0.1, 0.9), 3))])
+        meas_par = int(rng.integers(k))
+        case = {"tdm": True, "arrays": arrs, "format": fmt, "N": N, "plan": plan_, "meas": meas_par}
+        rep.case(["tdm", rnd(arrs, 5), fmt, N, plan_, meas_par], True)
+        rep.observe("tdm.arrays:%d" % k)
+        rep.observe("tdm.loops:%d" % len(N))
+        run_tdm_case(env, rep, case)
+
+
+def run_tdm_case(env, rep, case):
+    sf, ops = env["sf"], env["ops"]
+    arrs, fmt, N, plan_, meas_par = case["arrays"], case["format"], case["N"], case["plan"], case["meas"]
+    for _once in (0,):
+        prog = sf.TDMProgram(N=N if len(N) > 1 else N[0])
         with prog.context(*arrs) as (p, q):
-            ops.Sgate(0.5, p[0]) | q[1]
-            ops.BSgate(p[1], 0.3) | (q[0], q[1])
-            ops.Rgate(p[2]) | q[1]
-            ops.MeasureHomodyne(p[0]) | q[0]
+            for j, (nm, npar, slot, modes, other) in enumerate(plan_):
+                par = [other] * npar
+                par[slot] = p[j]
+                getattr(ops, nm)(*par) | tuple(q[m] for m in modes)
+            ops.MeasureHomodyne(p[meas_par]) | q[0]
         rep.monitor("roundtrip:tdm")
         V = lambda kind, what: rep.violation(("xir" if fmt == "xir" else "blackbird") + "_io", "tdm:" + kind, "[tdm %s] %s" % (fmt, what), case)
         try:
@@ -442,7 +471,12 @@ def tdm_cases(env, rep, rng, ncases):
         if not isinstance(Q, sf.TDMProgram):
             V("type", "a TDMProgram is read back as %s" % type(Q).__name__)
             continue
-        if Q.N != prog.N or Q.timebins != prog.timebins:
+        used = 1 + max(r.ind for c in prog.rolled_circuit for r in c.reg)
+        if fmt == "blackbird" and Q.timebins == prog.timebins and list(Q.N) == [used] and list(prog.N) != [used]:
+            # recorded finding: Blackbird TDM text has no field for the loop structure; the reader rebuilds a single loop
+            # over (highest mode index used) + 1 concurrent modes.  Everything else is still compared below.
+            V("loop-structure-not-stored", "N %s -> %s (timebins %s kept)" % (prog.N, Q.N, prog.timebins))
+        elif list(Q.N) != list(prog.N) or Q.timebins != prog.timebins:
             V("layout", "N %s -> %s, timebins %s -> %s" % (prog.N, Q.N, prog.timebins, Q.timebins))
             continue
         a = [np.asarray(x, dtype=float) for x in prog.tdm_params]
@@ -596,7 +630,7 @@ def run_shard(shard, rep):
         except Exception as e:
             rep.error("run_case", e)
     try:
-        tdm_cases(env, rep, rng, 4 if shard.get("tier") == "quick" else 20)
+        tdm_cases(env, rep, rng, 6 if shard.get("tier") == "quick" else 32)
     except Exception as e:
         rep.error("tdm", e)
     for _ in range(max(10, shard["n"] // 5)):
@@ -610,7 +644,7 @@ def run_shard(shard, rep):
 def replay(case, rep):
     env = load()
     if case.get("tdm"):
-        tdm_cases(env, rep, np.random.default_rng(0), 4)
+        run_tdm_case(env, rep, case)
     elif case.get("codegen"):
         run_codegen_case(case, rep, env)
     else:
